@@ -9,6 +9,15 @@ Relations
            replacement modes x vcf/bcf/pgen output, --region; np.random.{choice,randint,shuffle} recorded.
            The output is read back with pysam / pgenlib (never with haptools).
   assign : the pure kernel (searchsorted-right + diff + repeat as numpy computes them) against M.assign
+  sim    : the whole command chain simulate_gt -> write_breakpoints -> output_vcf on generated genetic maps (1-4
+           chromosomes; per chromosome 1-5 markers on the grid of the variant positions, the LAST marker -
+           independently for every chromosome, hence for the first, a middle and the last one - well below / exactly on /
+           above the chromosome's reference variants) with the panels, sample-info files, flags, formats and regions of
+           the vcf relation.  The breakpoints are the .bp file the chain wrote.  holds = the vcf relation's checker with
+           the block rule the property states for simulated breakpoints: first tract of the chromosome whose end >= the
+           position, and for "variants past the last map coordinate" the chromosome's last tract - so every variant of a
+           simulated chromosome must carry an allele of ONE reference haplotype of the block's population, that label as
+           POP and that sample as SAMPLE (never np.empty memory).  agree = the model of output_vcf on those breakpoints.
 """
 import os
 import shutil
@@ -21,7 +30,7 @@ from .core import Relation, err_kind
 
 PROP = "C03"
 CLAIMED = True
-COQ_MODULES = ["C03_Check", "C03_Proofs", "C03_SimCheck"]
+COQ_MODULES = ["C03_Check", "C03_Proofs", "C03_SimCheck", "C03_ProofsE2E"]
 PROPERTY_MODULE = "C03_Property"
 ALLOWED_AXIOMS = []
 RULE = (
@@ -29,7 +38,8 @@ RULE = (
     "1-4 tracts per chromosome with ends on/next to variant positions; non-trivial = some simulated haplotype has "
     ">= 2 blocks holding variants on one chromosome, or the panel holds a chromosome that was not requested / in "
     "another order, or both POP and SAMPLE are requested. assign: non-trivial = some variant position equals a block "
-    "end. Distinct = distinct canonical JSON."
+    "end. sim: as vcf, breakpoints simulated from generated maps; non-trivial = a reference variant lies past the last map "
+    "coordinate of a requested chromosome, or the vcf rule. Distinct = distinct canonical JSON."
 )
 TRUSTED = [
     "numpy RNG draws (choice index, randint strands, shuffle results) are recorded, not modelled",
@@ -940,7 +950,11 @@ LEVEL_TEXT = (
     "Coq theorems over all variant-position lists, tract layouts, panels and draw streams (no size bound) about a Gallina "
     "model of output_vcf/_convert_haplotype; the model is tied to /repo on every run by evaluating, inside Coq, "
     "model-vs-implementation agreement (under the recorded numpy draws) and the property's finite checker on the files "
-    "output_vcf wrote for generated breakpoints x panels x flags x formats, read back with pysam/pgenlib."
+    "output_vcf wrote for generated breakpoints x panels x flags x formats, read back with pysam/pgenlib. The end-to-end relation "
+    "runs simulate_gt -> write_breakpoints -> output_vcf on generated maps ending below the reference variants on every "
+    "chromosome; theorems: sorted breakpoints closed by the sentinel cover every position (C03_sentinel_covers, the hypothesis of "
+    "C03_no_uninitialised), a variant past every other end falls in the last block, and C03_output_allele_spec - one statement "
+    "about every output cell (assignment + per-block reference haplotype + writer)."
 )
 LEVEL_NOTE = (
     "Trusted: Coq kernel/vm_compute; the hand-written model (validated only differentially); recorded numpy draws are "
